@@ -528,6 +528,11 @@ class MessageManager(interfaces.TokenInterface, interfaces.MessageManager):
                 " probably unintended; clearing it."
             )
             message.mid = None
+            if message.code.is_response():
+                # Along with the message ID went the type that suited the
+                # request the object answered before (a piggy-backed response
+                # is an ACK); it is decided anew for this request.
+                message.mtype = None
 
         if message.code.is_response():
             no_response = (message.opt.no_response or 0) & (
